@@ -58,6 +58,17 @@ SharedCases ==
      \o << [op |-> "pair.sum", rounds |-> 1, na |-> 3, np |-> 0, mask |-> <<"P", "P", "none">>,
             entries |-> << E("affine", 1, "P"), Q1(E("affine", 2, "P")) @@ [shareq |-> 0], Q1(E("affine", 3, "none")) @@ [shareq |-> 1] >>, src |-> "gen", cls |-> "shared-q"] >>
 
+\* products whose factors cancel: e(P,Q) e(-P,Q) = e(P,Q) e(P,-Q) = 1 -- the Miller value then lies in a proper subfield before the final exponentiation
+CancelCases ==
+  LET A(k, j) == [kind |-> "affine", p |-> Aff1Raw(M1(k)), q |-> Aff2Raw(M2(j))]
+      Pr(k, j) == [kind |-> "prepared", p |-> Aff1Raw(M1(k)), q |-> Aff2Raw(M2(j))]
+      three == FromNat(3)  five == FromNat(5)  m3 == Sub(RMod, three)  m5 == Sub(RMod, five)
+  IN << [op |-> "pair.sum", rounds |-> 1, na |-> 2, np |-> 0, mask |-> <<"none", "none">>, entries |-> << A(three, five), A(m3, five) >>, src |-> "gen", cls |-> "cancelling"],
+        [op |-> "pair.sum", rounds |-> 1, na |-> 2, np |-> 0, mask |-> <<"none", "none">>, entries |-> << A(three, five), A(three, m5) >>, src |-> "gen", cls |-> "cancelling"],
+        [op |-> "pair.sum", rounds |-> 1, na |-> 1, np |-> 1, mask |-> <<"none", "none">>, entries |-> << A(three, five), Pr(m3, five) >>, src |-> "gen", cls |-> "cancelling"],
+        [op |-> "pair.sum", rounds |-> 2, na |-> 0, np |-> 2, mask |-> <<"none", "none">>, entries |-> << Pr(three, five), Pr(three, m5) >>, src |-> "gen", cls |-> "cancelling"],
+        [op |-> "pair.sum", rounds |-> 1, na |-> 3, np |-> 1, mask |-> <<"none", "none", "none", "none">>,
+         entries |-> << A(three, five), A(m3, five), A(FromNat(7), FromNat(2)), Pr(Sub(RMod, FromNat(7)), FromNat(2)) >>, src |-> "gen", cls |-> "cancelling"] >>
 SumCases ==
   SetToSeq(UNION { UNION { { [op |-> "pair.sum", rounds |-> 2, na |-> na, np |-> np, mask |-> m,
                               entries |-> [i \in 1..(na + np) |-> Entry(IF i <= na THEN "affine" ELSE "prepared", i, m[i])], src |-> "gen"]
@@ -65,7 +76,7 @@ SumCases ==
   \* interleaved construction order (prepared first) and a repeated pair
   \o << [op |-> "pair.sum", rounds |-> 2, na |-> 1, np |-> 1, mask |-> <<"none", "none">>,
          entries |-> << Entry("prepared", 1, "none"), Entry("affine", 1, "none") >>, src |-> "gen"] >>
-  \o SharedCases
+  \o SharedCases \o CancelCases
 
 \* ---- target group ----------------------------------------------------------------------------------------
 GTBases == IF Tier = "quick" THEN { GTGen, RefPairing(M1(FromNat(3)), M2(FromNat(5))) } ELSE { GTGen, F12Exp(GTGen, Sub(RMod, One)), RefPairing(M1(FromNat(3)), M2(FromNat(5))), F12!EOne }
